@@ -40,6 +40,11 @@ def cases(tier, seed):
         for op in ("rolling_sum", "rolling_max", "rolling_shift"):
             out.append({"op": op, "dtype": "float64", "N": 5, "G": 3, "W": 2, "min_periods": None if op == "rolling_shift" else 1, "mask": {"kind": "none"}})
             out.append({"op": op, "dtype": "float64", "N": 7, "G": 2, "W": 2, "min_periods": None if op == "rolling_shift" else 1, "mask": {"kind": "none"}})
+    if tier == "quick":
+        # a window longer than most groups can get, and min_periods well below it
+        for op in F.OPS:
+            for mp in ((None,) if op in ("rolling_shift", "rolling_diff") else (1, 3)):
+                out.append({"op": op, "dtype": "float64", "N": 4, "G": 2, "W": 3, "min_periods": mp, "mask": {"kind": "none"}})
     for c in out:
         c["name"] = F.case_name(c)
     return out
@@ -58,7 +63,7 @@ def validate(E, seed, tier):
 
 
 META = {
-    "bounds": {"quick": {"N": 4, "G": 2, "W": [1, 2], "min_periods": "1..W"},
+    "bounds": {"quick": {"N": 4, "G": 2, "W": "1, 2 (all dtypes, with/without mask), 3 (float64, unmasked)", "min_periods": "1..W"},
                "thorough": {"N": "6 (5 for masked min/max/mean; 7 unmasked sum/max/shift)", "G": "2 (3 at N=5)", "W": [1, 2, 3], "min_periods": "1..W"}},
     "enumerated": ["window", "min_periods", "dtype (incl. time units)", "mask present or not"],
     "symbolic": ["group codes", "values and null flags", "boolean mask bits"],
